@@ -319,6 +319,12 @@ Proof.
   repeat split; auto; try (intros; discriminate). apply sl_nil.
 Qed.
 
+Lemma Qo_new_done fo cz p c : Qo fo cz (sb_ctx_done (new_sub p (length fo)) c).
+Proof.
+  unfold Qo, dep, pipeline, new_sub; cbn. rewrite skipn_all.
+  repeat split; auto; try (intros; discriminate). apply sl_nil.
+Qed.
+
 Lemma Qo_dropped fo cz p : Qo fo cz (dropped_sub p (length fo)).
 Proof.
   unfold Qo, dep, pipeline, dropped_sub; cbn. rewrite skipn_all.
@@ -373,6 +379,9 @@ Proof.
   - (* Advance *)
     destruct (d <? 0)%Z; inversion Hs; subst; exact HI.
   - (* SubscribeCall *)
+    inversion Hs; subst; exact HI.
+  - (* CancelPending *)
+    destruct (nth_error (pend_subs s) j) as [[id [p c]]|]; [|discriminate].
     inversion Hs; subst; exact HI.
   - (* Cancel *)
     eapply with_sub_inv; [exact HI | exact Hs |].
@@ -455,7 +464,7 @@ Proof.
     destruct (lock s) eqn:Hlk; [|discriminate].
     destruct (nth_error (pend_subs s) j) as [[id p]|]; [|discriminate].
     inversion Hs; subst. apply subscribe_inv; [exact HI | exact Hlk |].
-    destruct (closed s); [apply Qo_dropped | apply Qo_new].
+    unfold mk_sub. destruct (closed s); [apply Qo_dropped | apply Qo_new_done].
   - (* CloseLoopDone *)
     destruct (cl s); try discriminate. destruct (proc s); inversion Hs; subst; exact HI.
   - (* CloseLock *)
@@ -587,9 +596,9 @@ Qed.
 (* two subscribers (the second one subscribing after the first value went out), three values,
    everything delivered to the first, the second still has one value in flight *)
 Definition demo_script : list ev :=
-  [SubscribeCall 1%Z true; SubscribeLocked 0;
+  [SubscribeCall 1%Z true false; SubscribeLocked 0;
    Batch 1%Z 7%Z; Advance 10%Z; Pop 1%Z; ExecBegin; ExecSend; ExecEnd; FwdTake 0; FwdDeliver 0;
-   SubscribeCall 2%Z true; SubscribeLocked 0;
+   SubscribeCall 2%Z true false; SubscribeLocked 0;
    Batch 1%Z 8%Z; Advance 10%Z; Pop 1%Z; ExecBegin; ExecSend; ExecSend; ExecEnd;
    Batch 2%Z 9%Z; Advance 10%Z; Pop 2%Z; ExecBegin; ExecSend;
    FwdTake 0; FwdDeliver 0; FwdTake 0; FwdDeliver 0; FwdTake 1].
@@ -618,7 +627,7 @@ Example demo_gap vr :
     registered b = true /\ gap b = true /\ fanout s = [7]%Z /\ pipeline b = [].
 Proof.
   destruct (run vr 10%Z init
-     [SubscribeCall 1%Z false; SubscribeLocked 0; Batch 1%Z 7%Z; Advance 10%Z; Pop 1%Z; ExecBegin;
+     [SubscribeCall 1%Z false false; SubscribeLocked 0; Batch 1%Z 7%Z; Advance 10%Z; Pop 1%Z; ExecBegin;
       ExecSend; ExecEnd; FwdTake 0; Cancel 0; FwdDrop 0]) as [s|] eqn:Hrun.
   2:{ destruct vr; vm_compute in Hrun; discriminate. }
   assert (Hr : reachable vr 10%Z s) by (eapply run_reachable; [apply reach_init | exact Hrun]).
